@@ -853,7 +853,7 @@ impl<VM: VMBinding> CommonPlan<VM> {
             if #[cfg(feature = "immortal_as_nonmoving")] {
                 self.nonmoving.release();
             } else if #[cfg(feature = "marksweep_as_nonmoving")] {
-                self.nonmoving.prepare(_full_heap);
+                self.nonmoving.release();
             } else {
                 self.nonmoving.release(_full_heap, UnlogBitsOperation::NoOp);
             }
